@@ -302,7 +302,7 @@ class KeyedDict(D):
         for k, t in self.optional.items():
             if it.path.choose([(False, True), (True, True)], f"key:{name}[{k!r}]"):
                 d[k] = t.make(it, f"{name}[{k!r}]", idx)
-        sizes = _widen(self.sizes)
+        sizes = list(self.sizes)  # (not widened in the thorough tier: one more symbolic key multiplies the string-equality case splits beyond any useful budget)
         n = it.path.choose([(n, True) for n in sizes], f"size:{name}")
         if max(sizes) > 0:
             it.path.bounded_inputs.add(f"{name}: at most {max(sizes)} symbolic keys")
